@@ -78,3 +78,58 @@ func Harness_C17_control_cap() {
 	verif_Assert("C17.ctl.never_exceeded", reg.Count() <= limit)
 	verif_Cover("C17.ctl.done")
 }
+
+// Sequential histories of admissions and closes (incl. closing the same connection twice and
+// closing an id that was never opened) under a small cap: the number of live connections never
+// exceeds the cap, an admission is refused exactly when the cap is reached, and a slot freed by
+// a close can be used again - once.
+func Harness_C17_cap_histories() {
+	ctx := context.Background()
+	limit := 1 + verif_Choose(2)
+	cfg := DefaultSessionConfig()
+	cfg.MaxConnections = limit
+	sm := vsNewNode(ctx, "node-A", nil, &vsAuth{}, cfg)
+	sm.streamFactory = stream.NewDefaultStreamFactory(ctx)
+	sm.streamMgr = stream.NewStreamManager(sm.streamFactory, ctx)
+	live := map[string]bool{}
+	ids := []string{"a", "b", "c", "d"}
+	opened := 0
+	n := verif_Bound("events")
+	for i := 0; i < n; i++ {
+		switch verif_Choose(3) {
+		case 0: // a connection arrives
+			if opened >= len(ids) {
+				continue
+			}
+			id := ids[opened]
+			opened++
+			rw := newC17RW(id)
+			_, err := sm.CreateConnection(rw, rw)
+			if len(live) < limit {
+				verif_Assert("C17.hist.admitted_below_cap", err == nil)
+				live[id] = true
+			} else {
+				verif_Assert("C17.hist.refused_at_cap", err != nil)
+				verif_Cover("C17.hist.refused")
+			}
+		case 1: // a connection that was opened at some point is closed (possibly again)
+			if opened == 0 {
+				continue
+			}
+			id := ids[verif_Choose(opened)]
+			sm.CloseConnection(id)
+			if !live[id] {
+				verif_Cover("C17.hist.closed_twice")
+			}
+			delete(live, id)
+		case 2: // a close for an id the server never saw
+			sm.CloseConnection("ghost")
+		}
+		sm.connLock.RLock()
+		cnt := len(sm.connMap)
+		sm.connLock.RUnlock()
+		verif_Assert("C17.hist.never_exceeded", cnt <= limit)
+		verif_Assert("C17.hist.count_matches", cnt == len(live))
+	}
+	verif_Cover("C17.hist.done")
+}
